@@ -238,3 +238,20 @@ func lookupEnvInt(name string) (int, bool) {
 	}
 	return n, true
 }
+
+// avoid reports whether this run should steer clear of the trigger of a known
+// finding (VERIF_AVOID lists the triggers; three runs out of four avoid them,
+// so that a recorded defect does not mask other violations, while the fourth
+// keeps exercising it).
+func avoid(e *Env, trigger string) bool {
+	list := os.Getenv("VERIF_AVOID")
+	if list == "" {
+		return false
+	}
+	for _, t := range strings.Split(list, ",") {
+		if t == trigger {
+			return e.R.Seed%4 != 0
+		}
+	}
+	return false
+}
